@@ -236,6 +236,11 @@ def eval_case(ctx, case):
                     continue   # an import that is reported but not needed by any string does not change what the strings denote
                 per.setdefault(byfile[fn], []).append(msg)
         if not any_attr:
+            if "import cycle not allowed" in text:
+                # the source module compiled before anything was generated: the cycle comes from the imports the data model reported
+                return verdicts + [(case, Verdict.violated("source re-emitted with exactly the reported imports gives an import cycle: the data model reports an import of the "
+                                                         "destination package itself (placement %s%s)" % (case["placement"], ", working directory reached through a symlink" if case.get("via_symlink") else ""),
+                                                         {"compile": text[-800:]}, tags))]
             return verdicts + [(case, Verdict.inconclusive("destination package does not compile for an unattributed reason: " + text[-600:]))]
     for name in sorted(ok):
         i = by_name[name]
